@@ -8,8 +8,11 @@ C05 "exact or error" for the reading direction).  Total: structural recursion ov
 `claimStructAsMap`).  `SaModel/Props/C02.lean` (`read_typed_decode`) proves that the reader returns what `cast` demands.
 
   `.ok (some d)`  the read must return `d`
-  `.error _`      the value has no exact representation in `t` ⇒ the read must fail
-  `.ok none`      no claim (`na`): the reader does not support this pair, or the conversion is modelled elsewhere
+  `.error _`      the read must fail: the value has no exact representation in `t`, a codec refuses it, or the reader
+                  does not offer this (target, column) pair (`unsupported`)
+  `.ok none`      no claim (`na`).  ONLY a struct-by-name read where field names repeat (in the target — not a Rust
+                  type — or among the children of the struct column) is left without a claim (`structClaim`);
+                  `Props.C02.cast_ne_na`: for every target / view without repeated names `cast` is never `na`.
 -/
 namespace SaModel.Read
 open SaModel
@@ -103,13 +106,6 @@ def claimVals (f : LVal → Claim) : LVals → R (Option (List DVal))
   | .nil => .ok (some [])
   | .cons v r => consClaim (f v) (claimVals f r)
 
-/-- the fields of a struct as map entries: key from the field name, value through `f` -/
-def claimStructAsMap (key : String → DVal) (f : Arr → LVal → Claim) : ArrFields → LFields → R (Option (List (DVal × DVal)))
-  | .cons fm a rest, .cons _ lv lrest =>
-    consClaim (match f a lv with | .ok (some d) => .ok (some (key fm.name, d)) | .ok none => .ok none | .error e => .error e)
-      (claimStructAsMap key f rest lrest)
-  | _, _ => .ok (some [])
-
 /-- key and value of one map entry -/
 def pairClaim (k v : Claim) : R (Option (DVal × DVal)) :=
   match k, v with
@@ -118,16 +114,24 @@ def pairClaim (k v : Claim) : R (Option (DVal × DVal)) :=
   | .ok (some dk), .ok (some dv) => .ok (some (dk, dv))
   | _, _ => .ok none
 
+/-- the fields of a struct as map entries: key from the field name through `key`, value through `f` -/
+def claimStructAsMap (key : String → Claim) (f : Arr → LVal → Claim) : ArrFields → LFields → R (Option (List (DVal × DVal)))
+  | .cons fm a rest, .cons _ lv lrest =>
+    consClaim (pairClaim (key fm.name) (f a lv)) (claimStructAsMap key f rest lrest)
+  | _, _ => .ok (some [])
+
 def claimEntries (fk fv : LVal → Claim) : LEntries → R (Option (List (DVal × DVal)))
   | .nil => .ok (some [])
   | .cons lk lv r => consClaim (pairClaim (fk lk) (fv lv)) (claimEntries fk fv r)
 
-/-- one byte of a binary column read through `U8Deserializer` -/
+/-- one byte of a binary column read through `U8Deserializer`: as `u8` under deserialize_any, by value into any integer
+width; no other element type -/
 def u8Claim (t : Target) (x : UInt8) : Claim :=
   match t with
-  | .any | .ignored => (match u8As t x with | .ok d => must d | .error _ => na)
-  | .int _ => (match u8As t x with | .ok d => must d | .error e => .error e)
-  | _ => na
+  | .any => must (.int .u8 x.toNat)
+  | .ignored => must .ignored
+  | .int ty => if ty.inRange x.toNat then must (.int ty x.toNat) else mustFail "out of range"
+  | _ => mustFail "unsupported (target, column) pair"
 
 /-- a sequence target over the bytes of a binary column (`U8SliceDeserializer`) -/
 def castBinSeq (t : Target) (b : Bytes) : Claim :=
@@ -155,27 +159,39 @@ def castVariantStr : TVariants → Bytes → Claim
        | _ => mustFail "strings carry no variant data")
     else castVariantStr rest s
 
-/-- key of a struct field read as a map entry (`StrDeserializer`) -/
-def mapKeyOf (k : Target) (name : String) : DVal :=
+/-- a struct field NAME read as a map key: as a string (`String`, `ByteBuf`, deserialize_any), ignored, as `char` when
+it is one character, as an enum-by-name with that unit variant; no other key type can take a field name (serde's
+`StrDeserializer` hands out a transient `visit_str`: no borrowed `&str` / `&[u8]`) -/
+def mapKeyClaim (k : Target) (name : String) : Claim :=
   match k with
-  | .string => .str .owned (strBytes name)
-  | _ => .str .transient (strBytes name)
+  | .any => must (.str .transient (strBytes name))
+  | .ignored => must .ignored
+  | .string => must (.str .owned (strBytes name))
+  | .byteBuf => must (.bytes .owned (strBytes name))
+  | .char =>
+    (match name.toList with
+     | [c] => must (.char c.toNat)
+     | _ => mustFail "not a char")
+  | .enum byIndex vs => if byIndex then mustFail "unsupported (target, column) pair" else castVariantStr vs (strBytes name)
+  | _ => mustFail "unsupported (target, column) pair"
 
 /-- tuple-like targets: only a struct column answers (`visit_seq` over its fields) -/
 def tupleClaim (f : ArrFields → LFields → R (Option (List DVal))) (a : Arr) (lv : LVal) : Claim :=
   match a, lv with
   | .struct _ _ fs, .struct lfs => andThenL (f fs lfs) fun ds => must (.seq (DVals.ofList ds))
   | _, .null => mustFail "null into a non-Option target"
-  | _, _ => na
+  | _, _ => mustFail "unsupported (target, column) pair"
 
-/-- struct targets by field name: only a struct column answers; no claim when names repeat on either side -/
+/-- struct targets by field name: only a struct column answers; no claim when names repeat on either side (the only
+`na` of `cast`: reading by name has no value-level meaning then; the reader reports `duplicate field` when a repeated
+column name is a target field and ignores the repetition otherwise — model `readFieldAs`, compared per run) -/
 def structClaim (tnames : List String) (f : ArrFields → LFields → R (Option (List (DVal × DVal)))) (a : Arr) (lv : LVal) : Claim :=
   match a, lv with
   | .struct _ _ fs, .struct lfs =>
     if !nodupNames (ArrFields.names fs) || !nodupNames tnames then na
     else andThenE (f fs lfs) fun es => must (.map (DEntries.ofList es))
   | _, .null => mustFail "null into a non-Option target"
-  | _, _ => na
+  | _, _ => mustFail "unsupported (target, column) pair"
 
 mutual
 /-- structural recursion over the target (lists, entries and struct fields of the value go through the
@@ -192,32 +208,30 @@ def cast : Target → Arr → LVal → Claim
     match a, lv with
     | .list _ _ _ _ el, .list items => andThenL (claimVals (fun v => cast t el v) items) fun ds => must (.seq (DVals.ofList ds))
     | .fixedSizeList _ _ _ _ el, .list items => andThenL (claimVals (fun v => cast t el v) items) fun ds => must (.seq (DVals.ofList ds))
-    | a, .bin b => if isBinaryLike a then castBinSeq t b else na
+    | a, .bin b => if isBinaryLike a then castBinSeq t b else mustFail "unsupported (target, column) pair"
     | _, .null => mustFail "null into a non-Option target"
-    | _, _ => na
+    | _, _ => mustFail "unsupported (target, column) pair"
   | .tuple ts, a, lv => tupleClaim (fun fs lfs => castTuple ts fs lfs) a lv
   | .tupleStruct ts, a, lv => tupleClaim (fun fs lfs => castTuple ts fs lfs) a lv
   | .map k v, a, lv =>
     match a, lv with
     | .struct _ _ fs, .struct lfs =>
-      (match k with
-       | .string | .any => andThenE (claimStructAsMap (mapKeyOf k) (fun c w => cast v c w) fs lfs) fun es => must (.map (DEntries.ofList es))
-       | _ => na)
+      andThenE (claimStructAsMap (mapKeyClaim k) (fun c w => cast v c w) fs lfs) fun es => must (.map (DEntries.ofList es))
     | .map _ _ _ ks vs, .map es =>
       andThenE (claimEntries (fun w => cast k ks w) (fun w => cast v vs w) es) fun es => must (.map (DEntries.ofList es))
     | _, .null => mustFail "null into a non-Option target"
-    | _, _ => na
+    | _, _ => mustFail "unsupported (target, column) pair"
   | .struct tfs, a, lv => structClaim (TFields.names tfs) (fun fs lfs => castFields tfs fs lfs) a lv
   | .enum byIndex vs, a, lv =>
     match a, lv with
     | .union _ _ fs, .union t v =>
       (match ArrUFields.findId fs t with
-       | none => na
+       | none => mustFail "unknown variant"
        | some (fm, child) =>
          if byIndex then castVariant vs (some t.toNat) fm.name child v else castVariant vs none fm.name child v)
-    | a, .str b => if isStringLike a && !byIndex then castVariantStr vs b else na
+    | a, .str b => if isStringLike a && !byIndex then castVariantStr vs b else mustFail "unsupported (target, column) pair"
     | _, .null => mustFail "null into a non-Option target"
-    | _, _ => na
+    | _, _ => mustFail "unsupported (target, column) pair"
   | .unit, a, lv => castScalar .unit a lv
   | .unitStruct, a, lv => castScalar .unitStruct a lv
   | .bool, a, lv => castScalar .bool a lv
@@ -228,7 +242,11 @@ def cast : Target → Arr → LVal → Claim
   | .string, a, lv => castScalar .string a lv
   | .str, a, lv => castScalar .str a lv
   | .bytes, a, lv => castScalar .bytes a lv
-  | .byteBuf, a, lv => castScalar .byteBuf a lv
+  | .byteBuf, a, lv =>
+    match a, lv with
+    | .list _ _ _ _ el, .list items =>     -- `ByteBuf` from a List / LargeList column: every element by value as `u8`
+      andThenL (claimVals (fun v => castScalar (.int .u8) el v) items) fun ds => must (.bytes .owned (ds.map byteOfD))
+    | a, lv => castScalar .byteBuf a lv
 /-- element `i` from field `i`; too few fields ⇒ the read must fail; surplus fields are not represented in a tuple
 (no claim is made about them) -/
 def castTuple : Targets → ArrFields → LFields → R (Option (List DVal))
@@ -251,7 +269,7 @@ def castVariant : TVariants → Option Nat → String → Arr → LVal → Claim
       (castKind k child v).andThen fun p => must (.enum (.str .transient (strBytes n)) p)
     else castVariant rest (sel.map (· - 1)) name child v
 def castKind : VKind → Arr → LVal → Claim
-  | .unit, child, v => if isNullArr child && LVal.isNull v then must .unit else na
+  | .unit, child, v => if isNullArr child && LVal.isNull v then must .unit else mustFail "unsupported (target, column) pair"
   | .newtype t, child, v => cast t child v
   | .tuple ts, child, v => tupleClaim (fun fs lfs => castTuple ts fs lfs) child v
   | .struct tfs, child, v => structClaim (TFields.names tfs) (fun fs lfs => castFields tfs fs lfs) child v
